@@ -15,6 +15,8 @@ RULES = {
     "R09.3": "at-height reads: Member{at_height: Some(h)} / TotalWeight{at_height: Some(h)} answer may_load_at_height(.., h) "
              "with the caller's h; None answers the live value",
     "R09.4": "strategy: every snapshot container is declared with Strategy::EveryBlock",
+    "R09.6": "the member listing the total is compared with is complete: ListMembers of both group contracts paginates with an "
+             "exclusive cursor, ascending, limit min(limit or 10, 30) (shared with C20)",
     "R09.5": "raw keys agree: both contracts' TOTAL / MEMBERS namespaces are the cw4 TOTAL_KEY / MEMBERS_KEY constants that "
              "Cw4Contract reads raw; primary / checkpoint / changelog namespaces are pairwise distinct; member_key's length "
              "prefix is the exact length of MEMBERS_KEY (fits a byte)",
@@ -61,6 +63,15 @@ def run(ctx):
     check_stake(ctx, it)
     check_queries(ctx, it)
     check_keys(ctx, it)
+    # the listing the total is compared with must enumerate every member exactly once (shared with C20)
+    from . import C20
+    sub = type(ctx)(ctx.pid, ctx.facts, ctx.engine, ctx.tier, ctx.tree_hash)
+    C20.run(sub)
+    for k in sub.order:
+        o = sub.obs[k]
+        if ("cw4_group::query/ListMembers" in o.key or "cw4_stake::query/ListMembers" in o.key) and not o.key.startswith(("anchor", "floor")):
+            ctx.ob("R09.6", o.key, True if o.status == "discharged" else (None if o.status == "undecided" else False),
+                   detail="; ".join(o.details), sites=o.sites, sample=o.sample)
 
 
 def check_group(ctx, it):
@@ -83,6 +94,12 @@ def check_group(ctx, it):
                     ctx.ob("R09.2", key + "/%s %s height" % ("MEMBERS" if e.item == MEM else "TOTAL", e.op), e.extra == HEIGHT, sites=[e.site],
                            detail="snapshot write recorded at height %s, not env.block.height" % show(e.extra)[:120],
                            sample={"height": show(e.extra)})
+                if ename == "instantiate":
+                    good = len(tw) == 1 and not tw[0].loops
+                    ctx.ob("R09.1", key + "/TOTAL initialised on every path", good, sites=[e.site for e in tw],
+                           detail="instantiate Ok-path with %d TOTAL writes (%s): a group created with an empty / short member list would "
+                                  "have no stored total, and the raw TOTAL_KEY read would differ from the TotalWeight query"
+                                  % (len(tw), "inside the member loop" if tw and tw[0].loops else "none"), sample={"total_writes": len(tw)})
                 if not mw and not tw:
                     continue
                 if mw and len(tw) != 1:
